@@ -476,9 +476,9 @@ theorem setField_preserves (E : Env) (st : St) (regs : List Reg) (o : Id) (n : N
   · simp only [hemp, if_true]
     exact ⟨hnil (by simpa using hemp), trivial⟩
   · simp only [hemp, Bool.false_eq_true, if_false, oldValue, hset']
-    by_cases hsv : (f.val == v) = true
+    by_cases hsv : (f.cmp != Cmp.none && f.val == v) = true
     · simp only [hsv, if_true]
-      exact ⟨hsame (by simpa using hsv), trivial⟩
+      exact ⟨hsame (by simp at hsv; exact hsv.2), trivial⟩
     · simp only [hsv, Bool.false_eq_true, if_false]
       exact hfire
 
